@@ -513,7 +513,7 @@ def gen_ops(rng: random.Random, n: int, style: str = "mixed", saveload: bool = F
         if style == "choose-only":
             ops.append(("choose_valid", rng.randint(0, 5)))
         elif saveload and rng.random() < 0.12:
-            ops.append(rng.choice([("reload",), ("save",), ("load",), ("save",), ("load",),
+            ops.append(rng.choice([("reload",), ("save",), ("load",), ("save", "raw"), ("load",),
                                    ("inputs", rng.choice(["nm", "who"]), rng.choice(["Alice", "Bob", ""])),
                                    ("inputs", "nm", "Zed"), ("badload", rng.randint(0, 9)), ("badload", rng.randint(0, 9))]))
         elif k < 0.5:
